@@ -137,6 +137,17 @@ impl<C: Config, Q: Query> Snapshot<C, Q> {
         } else {
             let forward_edges = self.forward_edge_order().await.unwrap();
 
+            // the observations are refreshed together with the set: the next
+            // repair must compare the callees' transitive firewall callees
+            // against what this set was built from, not against what the
+            // last execution saw.
+            let mut observations = (*self
+                .forward_edge_observation()
+                .await
+                .unwrap()
+                .0)
+                .clone();
+
             let mut new_tfcs = FxHashSet::default();
 
             for x in forward_edges.iter_all_callees() {
@@ -158,6 +169,13 @@ impl<C: Config, Q: Query> Snapshot<C, Q> {
                             .iter()
                             .copied(),
                     );
+
+                    if let Some(observation) = observations.get_mut(&x) {
+                        observation
+                            .seen_transitive_firewall_callees_fingerprint =
+                            callee_info
+                                .transitive_firewall_callees_fingerprint();
+                    }
                 }
             }
 
@@ -165,7 +183,10 @@ impl<C: Config, Q: Query> Snapshot<C, Q> {
 
             self.computing_lock_to_clean_query(
                 cleaned_edges,
-                Some(new_tfc),
+                Some((
+                    new_tfc,
+                    ForwardEdgeObservation(Arc::new(observations)),
+                )),
                 caller_information,
                 lock_guard,
             )
